@@ -32,7 +32,7 @@ class GenericResource(Resource):
         existing_resource_types = {
             klass.model_fields["Type"].annotation.__args__[0] for klass in ResourceModels.__args__[0].__args__
         }
-        if value in existing_resource_types and cls._strict:
+        if isinstance(value, str) and value in existing_resource_types and cls._strict:
             raise ValueError(f"Instantiation of GenericResource from {value} in {values} not allowed")
         else:
             logger.warning(f"Instantiation of GenericResource from {value} in {values}")
